@@ -93,6 +93,11 @@ PayloadOK(e) ==
     /\ e.trailing => e.out = "reject"            \* the payload is one JSON value, nothing after it
     /\ e.out = "accept" => e.attrs_same /\ e.absent_zero /\ e.idtype_same /\ e.remarshal_same
 
+\* the members of an accepted array of resource payloads: each keeps its own type, id and values
+ColPayloadOK(e) ==
+    /\ e.out = "accept"                       \* every member is a valid payload of a type of the schema
+    /\ e.count_same /\ e.types_same /\ e.ids_same /\ e.vals_same
+
 -----------------------------------------------------------------------------
 (* C01: a resource marshaled with all fields and all relationship data and     *)
 (* unmarshaled against the same schema.  r: what the driver observed, field    *)
